@@ -6,10 +6,10 @@
    TRUE ones is correspondence-only (harness: gettimeofday before/after, gettid of the emitting
    thread, also in a forked child); so is the equality of the abstract %.12g oracle with glibc. *)
 From Coq Require Import Reals.
-From Flocq Require Core BinarySingleNaN.   (* qualified names only *)
+From Flocq Require Core BinarySingleNaN Binary Bits.   (* qualified names only *)
 From Coq Require Import List ZArith Lia Bool Arith NArith.
 From Coq.Strings Require Import Byte.
-From Muduo Require Import Base_Bytes Gen_Consts Gen_C17 C17_Model C17_Proofs C17_Units C17_Flocq.
+From Muduo Require Import Base_Bytes Gen_Consts Gen_C17 C17_Model C17_Proofs C17_Units C17_G12 C17_Tid C17_Flocq C17_FlocqBits.
 Import ListNotations.
 Local Open Scope Z_scope.
 
@@ -64,7 +64,7 @@ Print Assumptions C17_side_conditions.
    its C++ type the run succeeds, the cursor stays strictly inside, and the contents are exactly
    the texts of those items that fitted ([kept], decided per item by the two fit tests), in
    order -- a concatenation of whole item texts. *)
-Theorem C17_in_bounds : forall fmt_g, (forall d, (length (fmt_g d) <= 24)%nat) ->
+Theorem C17_in_bounds_any_g : forall fmt_g, (forall d, (length (fmt_g d) <= 24)%nat) ->
   forall c items, (1 <= c)%nat ->
   run fmt_g (empty c) items <> Fault /\
   (Forall (fun it => item_ok it = true) items ->
@@ -83,7 +83,7 @@ Proof.
   - destruct (kept_subseq fmt_g c items []) as [ks [Hs Hk]]. exists ks. split; [exact Hs|].
     rewrite Hd, Hk. reflexivity.
 Qed.
-Print Assumptions C17_in_bounds.
+Print Assumptions C17_in_bounds_any_g.
 
 (* nothing is left out while the texts and one numeric headroom fit *)
 Theorem C17_nothing_dropped_when_room : forall fmt_g c items,
@@ -92,6 +92,64 @@ Theorem C17_nothing_dropped_when_room : forall fmt_g c items,
 Proof. intros fmt_g c items H. apply (kept_all fmt_g c items []). cbn [length]. lia. Qed.
 Print Assumptions C17_nothing_dropped_when_room.
 
+(* ---- operator<<(double): snprintf("%.12g") ------------------------------------------------- *)
+(* fmt_g12 (C17_Model) computes the text from the 64 bits: sign; inf / nan; 0; otherwise the decimal
+   exponent X (10^X <= |x| < 10^(X+1)), |x| rounded to 12 significant digits (ties to even), the
+   %g rule with P = 12 (style f with precision 11-X if -4 <= X < 12, else style e with precision
+   11; trailing zeros and a bare '.' removed; exponent with at least two digits).
+   (1) EVERY 64-bit pattern gives at most 19 characters: the 24 that C17_in_bounds_any_g assumes of
+   its oracle is a theorem for this text.  (2) The decimal exponent is exact and the digits are in
+   [10^11, 10^12) for every rational in the range of binary64 magnitudes.  That the real library
+   prints this text is tested (differential run of the extracted fmt_g12 against glibc). *)
+Theorem C17_g12_length : forall bits, (length (fmt_g12 bits) <= 19)%nat.
+Proof. exact fmt_g12_length. Qed.
+Print Assumptions C17_g12_length.
+
+Theorem C17_g12_digits : forall N D, in_range N D ->
+  dec_exp_ok N D (dec_exp N D) = true /\
+  10 ^ 11 <= fst (round12 N D) < 10 ^ 12 /\ -401 <= snd (round12 N D) <= 401.
+Proof. exact (fun N D R => conj (dec_exp_spec N D R) (round12_range N D R)). Qed.
+Print Assumptions C17_g12_digits.
+
+(* Specification (Flocq, real numbers): [dec_sig12 x] = round radix10 (FLX_exp 12) ZnearestE x, x
+   correctly rounded to 12 significant decimal digits.  (1) round12 IS that rounding; (2) the fields
+   read off the 64 bits are Flocq's decoding IEEE754.Bits.b64_of_bits; (3) for a finite non-zero
+   double the text is the sign followed by the %g rendering of (k, X) with k * 10^(X-11) =
+   dec_sig12 |x|, 10^11 <= k < 10^12. *)
+Theorem C17_g12_spec :
+  (forall N D, in_range N D ->
+     Defs.F2R (Defs.Float radix10 (fst (round12 N D)) (snd (round12 N D) - 11)) = dec_sig12 (IZR N / IZR D)) /\
+  (forall bits, 0 <= bits < 2 ^ 64 -> bits / 2 ^ 52 mod 2 ^ 11 <> 2047 -> bits mod 2 ^ 63 <> 0 ->
+     exists k X, 10 ^ 11 <= k < 10 ^ 12 /\
+       Defs.F2R (Defs.Float radix10 k (X - 11)) = dec_sig12 (Rabs (Binary.B2R 53 1024 (Bits.b64_of_bits bits))) /\
+       fmt_g12 bits = (if bits / 2 ^ 63 mod 2 =? 1 then [x2d] else []) ++ g12_text k X).
+Proof. exact (conj round12_is_round fmt_g12_spec). Qed.
+Print Assumptions C17_g12_spec.
+
+Lemma g12_len24 : forall d, (length (fmt_g12 d) <= 24)%nat.
+Proof. intros d. pose proof (fmt_g12_length d). lia. Qed.
+
+(* C17_in_bounds without an assumption about the %.12g text: the stream with the model's fmt_g12 *)
+Theorem C17_in_bounds : forall c items, (1 <= c)%nat ->
+  run fmt_g12 (empty c) items <> Fault /\
+  (Forall (fun it => item_ok it = true) items ->
+   exists b, run fmt_g12 (empty c) items = Ok b /\ cap b = c /\ (flen b < c)%nat /\
+             debugString b = Ok b /\
+             data b = kept fmt_g12 c [] items /\
+             exists ks, subseq ks items /\ data b = concat (map (item_text fmt_g12) ks)).
+Proof. exact (C17_in_bounds_any_g fmt_g12 g12_len24). Qed.
+Print Assumptions C17_in_bounds.
+
+(* LogStream.h operators, Fmt and strerror_tl as regenerated from the sources (the model's item
+   texts for bool and NULL are these regenerated literals; a Fmt item is a value iff its text passed
+   the constructor's length assert) *)
+Theorem C17_stream_ops_generated :
+  bool_true_text = [x31] /\ bool_false_text = [x30] /\ null_text_gen = [x28;x6e;x75;x6c;x6c;x29] /\
+  append_ops_shape_ok = true /\ Fmt_length_assert_is_lt = true /\ Fmt_shape_ok = true /\
+  (1 <= Fmt_buf_size <= Z.of_nat kMaxNumericSize) /\ strerror_tl_shape_ok = true.
+Proof. exact stream_ops_gen. Qed.
+Print Assumptions C17_stream_ops_generated.
+
 (* ---- Logger ------------------------------------------------------------------------------ *)
 
 (* When the line fits (with one numeric headroom to spare) the bytes handed to the output
@@ -99,7 +157,7 @@ Print Assumptions C17_nothing_dropped_when_room.
    message " - " basename ':' line '\n'; the hypothesis [cache_coherent] is what the per-thread
    cache t_lastSecond / t_time must satisfy (it is re-established by every line, second
    conjunct; it is NOT re-established across Logger::setTimeZone: see C17_time_cache_refuted). *)
-Theorem C17_line_shape : forall fmt_g, (forall d, (length (fmt_g d) <= 24)%nat) ->
+Theorem C17_line_shape_any_g : forall fmt_g, (forall d, (length (fmt_g d) <= 24)%nat) ->
   forall th r, cache_coherent th r -> req_ok r ->
   (length (line_text fmt_g r) + kMaxNumericSize <= kSmallBuffer)%nat ->
   (exists b, snd (log_line fmt_g th r) = Ok b /\ data b = line_text fmt_g r) /\
@@ -118,7 +176,7 @@ Proof.
   - intros H. unfold tid_text. rewrite app_length, fmt_d_length; [reflexivity|lia|].
     change (10 ^ Z.of_nat 5) with 100000. lia.
 Qed.
-Print Assumptions C17_line_shape.
+Print Assumptions C17_line_shape_any_g.
 
 (* Logger::Impl::formatTime as regenerated from Logging.cc (Gen_C17): the per-thread cache is
    refreshed when `seconds != t_lastSecond`; the snprintf format of t_time prints
@@ -143,11 +201,57 @@ Print Assumptions C17_logger_time_generated.
    every line is ONE function F of its second) and no line is stamped with second 0 of the epoch,
    EVERY line that fits carries the true date/time text of its own second -- cache hits included.
    (C17_time_cache_refuted below: not so across Logger::setTimeZone.) *)
-Theorem C17_time_cache_partial : forall fmt_g, (forall d, (length (fmt_g d) <= 24)%nat) ->
+Theorem C17_time_cache_partial_any_g : forall fmt_g, (forall d, (length (fmt_g d) <= 24)%nat) ->
   forall F rs, Forall (line_ok fmt_g F) rs ->
   Forall2 (fun r out => exists b, out = Ok b /\ data b = line_text fmt_g r) rs (log_lines fmt_g tls0 rs).
 Proof. exact (fun fmt_g Hg F rs H => lines_shape fmt_g Hg F rs tls0 (cache_for_tls0 F) H). Qed.
+Print Assumptions C17_time_cache_partial_any_g.
+
+Theorem C17_line_shape : forall th r, cache_coherent th r -> req_ok r ->
+  (length (line_text fmt_g12 r) + kMaxNumericSize <= kSmallBuffer)%nat ->
+  (exists b, snd (log_line fmt_g12 th r) = Ok b /\ data b = line_text fmt_g12 r) /\
+  (let th' := fst (log_line fmt_g12 th r) in
+   lastSecond th' = lq_seconds r /\ firstn 17 (t_time th') = time_text (lq_dt r)) /\
+  length (time_text (lq_dt r)) = 17%nat /\ length (level_name (lq_level r)) = 6%nat /\
+  (0 <= lq_micros r < 1000000 -> length (fmt_d x30 6 (lq_micros r)) = 6%nat) /\
+  (0 <= lq_tid r < 100000 -> length (tid_text (lq_tid r)) = 6%nat).
+Proof. exact (C17_line_shape_any_g fmt_g12 g12_len24). Qed.
+Print Assumptions C17_line_shape.
+
+Theorem C17_time_cache_partial : forall F rs, Forall (line_ok fmt_g12 F) rs ->
+  Forall2 (fun r out => exists b, out = Ok b /\ data b = line_text fmt_g12 r) rs (log_lines fmt_g12 tls0 rs).
+Proof. exact (C17_time_cache_partial_any_g fmt_g12 g12_len24). Qed.
 Print Assumptions C17_time_cache_partial.
+
+(* ---- the thread id in a line is the emitting thread's own -------------------------------------- *)
+(* Side conditions on the regenerated tid cache (CurrentThread.h/.cc, Thread.cc): the format of
+   cacheTid's snprintf renders "%5d "; t_tidString (32 bytes) holds it; t_cachedTid starts as 0;
+   cacheTid() and tid() have the guarded shape; ThreadNameInitializer's constructor registers
+   afterFork as the atfork CHILD handler and the static object exists; and the handler, statement
+   by statement (abstract interpretation af_resets), leaves the cache empty or freshly rendered. *)
+Theorem C17_tid_cache_generated :
+  ((forall k, mini_printf tid_format [k] = tid_text k) /\ (12 < Z.to_nat tid_string_size)%nat /\
+   cachedTid_init = 0 /\ atfork_child_registered = true /\ cacheTid_shape_ok = true /\ tid_shape_ok = true) /\
+  af_resets afterFork_steps = true.
+Proof. exact (conj tid_gen_side afterFork_resets). Qed.
+Print Assumptions C17_tid_cache_generated.
+
+(* Every thread of every process: follow the thread-local tid cache along ANY history of log
+   lines, forks (into the child: TLS copied, new kernel tid, atfork child handler) and thread starts
+   (fresh TLS, new kernel tid), starting from the zero-initialised cache: every line logged carries
+   the "%5d " rendering of the kernel thread id of the thread that logs it. *)
+Theorem C17_tid_text_matches_tid : forall h k, ktid_ok k -> Forall hop_ok h ->
+  Forall (fun p => snd p = tid_text (fst p)) (lineage k tidc0 h).
+Proof. exact (fun h k Hk Hh => lineage_true h k tidc0 Hk (tidc0_good k) Hh). Qed.
+Print Assumptions C17_tid_text_matches_tid.
+
+(* a handler that only sets t_cachedTid (without re-rendering t_tidString) is rejected by the
+   abstract interpretation, and indeed the forked child would log its parent's id *)
+Example ex_tid_stale :
+  af_resets [AfSetTid; AfOther; AfCallTid] = false /\
+  lineage 100 tidc0 [HLog; HFork 200; HLog; HSpawn 300; HLog] =
+    [(100, tid_text 100); (200, tid_text 200); (300, tid_text 300)].
+Proof. vm_compute. split; reflexivity. Qed.
 
 (* When does a line fit?  strerror_tl returns a C string held in t_errnobuf (regenerated size, 512):
    at most size-1 characters; thread ids are below 10^7 (kernel limit 2^22).  Then everything but
